@@ -228,8 +228,8 @@ def cases(tier, seed):
         for lo in range(0, len(CONFIGS), 12):
             cs.append({"kind": "cif", "cell": 2 if tier == "thorough" else 0, "lo": lo, "hi": lo + 12, "natoms": n})
     syms = pdb_symbols()
-    for lo in range(0, len(syms), 16):
-        cs.append({"kind": "cif-symbols", "lo": lo, "hi": lo + 16})
+    for lo in range(0, len(syms), 4):
+        cs.append({"kind": "cif-symbols", "lo": lo, "hi": lo + 4})
     for lo in range(0, len(syms), 4):
         cs.append({"kind": "pdb", "lo": lo, "hi": lo + 4, "tier": tier})
     return cs
